@@ -375,7 +375,9 @@ func (r *reader) _readEvent(canary byte) (m Message, err error) {
 			m = mm
 
 		default:
-			panic(fmt.Sprintf("must not happen: invalid canary % X", canary))
+			// a data byte without running status or a system common / realtime status byte:
+			// the data is corrupt
+			return m, fmt.Errorf("invalid SMF data: unexpected byte % X where a status byte was expected", canary)
 		}
 
 		// on a voice/channel category message with status either given or cached (running status)
